@@ -32,8 +32,9 @@ version = "0.0.0"
 edition = "2021"
 
 [dependencies]
-nodejs-semver = { path = "../crate" }
+nodejs-semver = { path = "../crate", features = ["serde"] }
 miette = "7.4"
+serde_json = "1.0"
 
 [profile.dev]
 opt-level = 1
@@ -64,13 +65,21 @@ def search(pid, repo, workdir, tier, level=None):
     exe = os.path.join(workdir, 'target', 'debug', 'witness')
     try:
         seed = int(os.environ.get('VERIF_SEED', '0') or 0)
-        r = subprocess.run([exe, pid, str(lvl), str(seed)], capture_output=True, text=True, timeout=1500)
+        kf = json.load(open(os.path.join(VERIF, 'known_findings.json')))
+        known = [k['standin_input'] for k in kf.get('findings', []) if k.get('property') == pid and k.get('standin_input')]
+        r = subprocess.run([exe, pid, str(lvl), str(seed)], capture_output=True, text=True, timeout=1500, env=dict(os.environ, VERIF_KNOWN='\n'.join(known)))
     except subprocess.TimeoutExpired:
         return {'found': False, 'by': 'native bounded search', 'error': 'timeout', 'wall_s': round(time.time() - t0, 1)}
     out = r.stdout
     m = re.search(r'^WITNESS (\{.*\})\s*$', out, re.M)
     res = {'by': 'bounded native search over the grid of /verif/witness/src/main.rs, run against a scratch copy of the working tree (overflow checks on)',
            'bounded': True, 'level': lvl, 'wall_s': round(time.time() - t0, 1), 'cmd': '%s %s %d %d' % (exe, pid, lvl, int(os.environ.get('VERIF_SEED', '0') or 0))}
+    res['known_hits'] = []
+    for km in re.finditer(r'^KNOWN (\{.*\})\s*$', out, re.M):
+        try:
+            res['known_hits'].append(json.loads(km.group(1)))
+        except Exception:
+            res['known_hits'].append({'raw': km.group(1)})
     if m:
         try:
             j = json.loads(m.group(1))
